@@ -3,10 +3,10 @@ INIT Init
 NEXT Next
 CONSTANTS
   Types = {"U", "R", "D"}
-  Froms = {0, 1, 2, 3, 4}
+  Froms <- FromsQuick
   Untils = {0, 1, 2, 3, 4, 5, 6}
   Times = {0, 1, 2, 3, 4, 5, 6, 7, 8}
-  Deltas = {2, 5}
+  Deltas = {2, 5, 1000000}
   Decoys = {0, 1}
 INVARIANT WindowEffect
 INVARIANT OnlyDelta
